@@ -27,6 +27,7 @@ TARGETS = [
     ("cmp.rs", r"impl\s+Cmp\s+for\s+DefaultCmp", "find_short_succ", "find_short_succ", {}),
     ("filter.rs", r"impl\s+BloomPolicy", "bloom_hash", "bloom_hash", {}),
     ("filter.rs", r"impl\s+FilterPolicy\s+for\s+BloomPolicy", "key_may_match", "bloom_key_may_match", {}),
+    ("filter.rs", r"impl\s+FilterPolicy\s+for\s+BloomPolicy", "create_filter", "bloom_create_filter", {"bits_per_key": "u32", "k": "u32"}),
     ("filter_block.rs", r"impl\s+FilterBlockReader", "is_well_formed", "fbr_is_well_formed", {}),
     ("filter_block.rs", r"impl\s+FilterBlockReader", "num", "fbr_num", {"block": "bytes", "offsets_offset": "usize"}),
     ("filter_block.rs", r"impl\s+FilterBlockReader", "offset_of", "fbr_offset_of", {"block": "bytes", "offsets_offset": "usize"}),
@@ -203,7 +204,7 @@ class P:
             if self.eat(";"):
                 self.expr()
             self.expect("]")
-            return "bytes" if t == "u8" else ("list", t)
+            return "bytes" if t == "u8" else ("usizelist" if t == "usize" else ("natlist" if t in INTS else ("list", t)))
         if self.eat("("):
             ts = []
             while not self.at(")"):
@@ -237,6 +238,8 @@ class P:
             return ("option", t)
         if v in INTS or v == "bool":
             return v
+        if len(v) == 1 and v.isupper():
+            return "closure"
         if v == "Ordering":
             return "ordering"
         raise Untranslatable("unsupported type %s" % v)
@@ -245,6 +248,20 @@ class P:
     def function(self):
         self.expect("fn")
         name = self.next()[1]
+        if self.at("<"):
+            depth = 0
+            while True:
+                v = self.next()[1]
+                if v == "<":
+                    depth += 1
+                elif v == ">":
+                    depth -= 1
+                    if depth == 0:
+                        break
+                elif v == ">>":
+                    depth -= 2
+                    if depth <= 0:
+                        break
         self.expect("(")
         params = []
         self.selfkind = None
@@ -510,8 +527,6 @@ class P:
         self.expect("(")
         a = []
         while not self.at(")"):
-            if self.at("|"):
-                raise Untranslatable("closure")
             a.append(self.expr())
             self.eat(",")
         self.expect(")")
@@ -680,6 +695,8 @@ def norm_writer(e):
 
 
 MUTATORS = ("push", "extend_from_slice", "resize", "clear", "truncate", "write_varint", "write_fixedint", "reserve")
+# helper functions that take a closure: inlined at their call sites together with the closure (file -> names)
+INLINE_HELPERS = {"filter.rs": ["offset_data_iterate"]}
 MUT_SELF_METHODS = set()
 ASSOC_FNS = {}             # (Type, fn) -> (lean name, params, return type) of translated associated functions without self   # names of translated &mut self methods (filled while translating, callee before caller)
 
@@ -750,6 +767,27 @@ def assigned_vars(stmts, acc=None):
     return acc
 
 
+def subst_closure_calls(stmts, fname, closure):
+    """statements with every call statement `fname(arg)` replaced by the closure's body (parameter bound to arg)"""
+    _, ps, rt, cbody = closure
+    out = []
+    for st in stmts:
+        if st[0] == "expr" and isinstance(st[1], tuple) and st[1][0] == "call" and st[1][1] == [fname]:
+            if len(ps) != len(st[1][2]):
+                raise Untranslatable("closure arity")
+            out += [("let", pn, pt, a, False) for (pn, pt), a in zip(ps, st[1][2])] + list(cbody)
+        elif st[0] == "while":
+            out.append(("while", st[1], subst_closure_calls(st[2], fname, closure)))
+        elif st[0] == "for":
+            out.append(("for", st[1], st[2], subst_closure_calls(st[3], fname, closure)))
+        elif st[0] == "expr" and isinstance(st[1], tuple) and st[1][0] == "if":
+            e = st[1]
+            out.append(("expr", ("if", e[1], subst_closure_calls(e[2], fname, closure), subst_closure_calls(e[3], fname, closure) if e[3] is not None else None), st[2]))
+        else:
+            out.append(st)
+    return out
+
+
 def always_leaves(stmts):
     """the block never falls through its end (ends in return/break/continue on every path)"""
     if not stmts:
@@ -776,6 +814,7 @@ class Emitter:
         self.uses_fuel = False
         self.uses_cmp = False
         self.closures = {}
+        self.inline_helpers = {}
         self.outs = list(outs)          # names of `&mut Vec<u8>` parameters: returned together with the value
 
     def fresh(self, p):
@@ -1378,12 +1417,38 @@ class Emitter:
             e = norm_writer(e)
             if e[0] == "mcall" and e[2] in MUTATORS:
                 return self.mutate(e, env) + "\n" + self.stmts(rest, env, ctx)
+            if e[0] == "call" and len(e[1]) == 1 and e[1][0] in self.inline_helpers:
+                return self.stmts(self.inline_helper(e[1][0], e[2], env) + rest, env, ctx)
+            if e[0] == "call" and len(e[1]) == 1 and e[1][0] in self.closures:
+                # a closure called for its effects: its body runs here
+                _, ps, rt, body = self.closures[e[1][0]]
+                if len(ps) != len(e[2]):
+                    raise Untranslatable("closure arity")
+                pre = [("let", pn, pt, a, False) for (pn, pt), a in zip(ps, e[2])]
+                return self.stmts(pre + body + rest, env, ctx)
             raise Untranslatable("expression statement %s" % e[0])
         if k == "while":
             return self.loop(s[1], s[2], None, rest, env, ctx)
         if k == "for":
             return self.for_loop(s, rest, env, ctx)
         raise Untranslatable("statement %s" % k)
+
+    def inline_helper(self, name, args, env):
+        """statements of the helper `name` with its parameters bound to the arguments; a closure argument is
+        registered under the parameter's name, so that the helper's `f(x)` runs the closure body in place"""
+        hname, hparams, hret, hbody = self.inline_helpers[name]
+        if len(hparams) != len(args):
+            raise Untranslatable("helper arity")
+        pre = []
+        body = hbody
+        for (pn, pt), a in zip(hparams, args):
+            if isinstance(a, tuple) and a[0] == "closure":
+                body = subst_closure_calls(body, pn, a)     # AST level: the loop-state analysis must see the closure body
+            else:
+                if pn in env:
+                    raise Untranslatable("helper parameter %s clashes with a local of the caller" % pn)
+                pre.append(("let", pn, None, a, False))
+        return pre + body
 
     def first_assigned_type(self, name, stmts, env):
         """type of the first `name = rhs` found in the statements (declaration without type and initialiser)"""
@@ -1732,6 +1797,11 @@ def translate(src_dir):
             pr = P(tokenize(ftxt))
             name, params, ret, body = pr.function()
             em = Emitter(rust, consts, fields, known, ret, struct, pr.selfkind, pr.outs)
+            for hn in INLINE_HELPERS.get(fname, []):
+                try:
+                    em.inline_helpers[hn] = P(tokenize(find_fn(text, None, hn))).function()
+                except Untranslatable:
+                    pass
             env = {}
             if struct:
                 env["self"] = ("self_", "struct:" + struct)
